@@ -156,10 +156,10 @@ func fixtureContracts() []fixtureContract {
 	sdCaller := (&asm{}).op(opCALLER, opSELFDESTRUCT).b
 	return []fixtureContract{
 		{"Sink", t("stop")}, {"Reverter", t("revert")}, {"Invalid", t("invalid")}, {"Looper", t("loop")},
-		{"SDSelf0", sdSelf}, {"SDSelf1", sdSelf}, {"SDSelf2", sdSelf}, {"SDArg", sdArg}, {"SDCaller", sdCaller},
+		{"SDSelf0", sdSelf}, {"SDSelf1", sdSelf}, {"SDSelf2", sdSelf}, {"SDArg", sdArg}, {"SDArgD", sdArg}, {"SDCaller", sdCaller},
 		{"RelayOK", relayCode(opCALL, "stop")}, {"RelayRevert", relayCode(opCALL, "revert")},
 		{"RelayOOG", relayCode(opCALL, "loop")}, {"RelayInvalid", relayCode(opCALL, "invalid")},
-		{"RelayCC", relayCode(opCALLCODE, "stop")}, {"RelayDC", relayCode(opDELEGATECALL, "stop")},
+		{"RelayCC", relayCode(opCALLCODE, "stop")}, {"RelayCCD", relayCode(opCALLCODE, "stop")}, {"RelayDC", relayCode(opDELEGATECALL, "stop")},
 		{"RelayDCRevert", relayCode(opDELEGATECALL, "revert")},
 		{"StakeHub", relayCode(opDELEGATECALL, "stop")}, {"StakeHub2", relayCode(opDELEGATECALL, "stop")},
 		{"StakeOp", stakeOpCode(opSTAKE)}, {"UnstakeOp", stakeOpCode(opUNSTAKE)}, {"UnstakeAllOp", stakeOpCode(opUNSTAKEALL)},
